@@ -114,6 +114,27 @@ pub mod nom {
                 }
             }
         }
+        impl<'a, A, B, C, D, F5, OA, OB, OC, OD, OE, E> TupleSpec<'a, (OA, OB, OC, OD, OE), E> for (A, B, C, D, F5)
+            where A: Fn(&'a [u8]) -> IResult<&'a [u8], OA, E>, B: Fn(&'a [u8]) -> IResult<&'a [u8], OB, E>, C: Fn(&'a [u8]) -> IResult<&'a [u8], OC, E>,
+                  D: Fn(&'a [u8]) -> IResult<&'a [u8], OD, E>, F5: Fn(&'a [u8]) -> IResult<&'a [u8], OE, E>
+        {
+            open spec fn tp_req(self) -> bool {
+                (forall|i: &'a [u8]| #[trigger] self.0.requires((i,))) && (forall|i: &'a [u8]| #[trigger] self.1.requires((i,)))
+                    && (forall|i: &'a [u8]| #[trigger] self.2.requires((i,))) && (forall|i: &'a [u8]| #[trigger] self.3.requires((i,)))
+                    && (forall|i: &'a [u8]| #[trigger] self.4.requires((i,)))
+            }
+            open spec fn tp_post(self, i: &'a [u8], r: IResult<&'a [u8], (OA, OB, OC, OD, OE), E>) -> bool {
+                match r {
+                    Ok((rest, (a, b, c, d, e5))) => exists|i1: &'a [u8], i2: &'a [u8], i3: &'a [u8], i4: &'a [u8]| #![auto]
+                        self.0.ensures((i,), Ok((i1, a))) && self.1.ensures((i1,), Ok((i2, b))) && self.2.ensures((i2,), Ok((i3, c))) && self.3.ensures((i3,), Ok((i4, d))) && self.4.ensures((i4,), Ok((rest, e5))),
+                    Err(e) => self.0.ensures((i,), Err(e))
+                        || (exists|i1: &'a [u8], a: OA| #![auto] self.0.ensures((i,), Ok((i1, a))) && self.1.ensures((i1,), Err(e)))
+                        || (exists|i1: &'a [u8], a: OA, i2: &'a [u8], b: OB| #![auto] self.0.ensures((i,), Ok((i1, a))) && self.1.ensures((i1,), Ok((i2, b))) && self.2.ensures((i2,), Err(e)))
+                        || (exists|i1: &'a [u8], a: OA, i2: &'a [u8], b: OB, i3: &'a [u8], c: OC| #![auto] self.0.ensures((i,), Ok((i1, a))) && self.1.ensures((i1,), Ok((i2, b))) && self.2.ensures((i2,), Ok((i3, c))) && self.3.ensures((i3,), Err(e)))
+                        || (exists|i1: &'a [u8], a: OA, i2: &'a [u8], b: OB, i3: &'a [u8], c: OC, i4: &'a [u8], d: OD| #![auto] self.0.ensures((i,), Ok((i1, a))) && self.1.ensures((i1,), Ok((i2, b))) && self.2.ensures((i2,), Ok((i3, c))) && self.3.ensures((i3,), Ok((i4, d))) && self.4.ensures((i4,), Err(e))),
+                }
+            }
+        }
         #[verifier::external_body]
         pub fn tuple<'a, O, E, L: TupleSpec<'a, O, E>>(l: L) -> (f: impl Fn(&'a [u8]) -> IResult<&'a [u8], O, E>)
             requires
